@@ -97,3 +97,25 @@ Definition tab_root (tol : Q) (tbl : list (Q * option Q)) (x : Q) : option Q :=
   match find (fun e => key_close tol x (fst e)) tbl with Some e => snd e | None => None end.
 Definition tab_exh (tol : Q) (tbl : list (Q * bool)) (m : Q) : bool :=
   match find (fun e => key_close tol m (fst e)) tbl with Some e => snd e | None => true end.
+
+(* ================================================================================================ wave 8 (audit 5b, D4 / D5)
+   Two argument defects of the constructor, repaired in /repo by fix-w8-c13 (6825494, e5add93); the model above is the REPAIRED code
+   for a positive minimum_probability_step.
+   (a) F-C13-8, before 6825494: `left_axis = np.array([-h, 0])` is an int64 array when h is a Python int, and np.insert casts every
+       inserted state to int64 (C cast: truncation towards zero); the loop variables stay floats, the array is only written, so the
+       returned half axis is the float axis truncated state by state.  (np.append on the right side re-allocates as float64: the
+       right half axis was never affected.)  After the repair both arrays are float64 and `np.insert(axis, 0, v) = v :: axis` holds
+       for every h. *)
+From Coq Require Import Qround.
+Definition trunc0 (x : Q) : Q := inject_Z (if Qle_bool 0 x then Qfloor x else Qceiling x).
+Definition compute_left_axis_int_h (exhausted : Q -> bool) (root : Q -> option Q) (fuel : nat) (h : Q) : option (list Q) :=
+  option_map (map trunc0) (compute_left_axis exhausted root fuel h).
+(* (b) F-C13-9, repaired by e5add93: `if not minimum_probability_step > 0: raise ValueError` is the first statement of both
+       compute_*_axis functions.  The exhaustion test of the code, with the quadrature as an arbitrary function pleft:
+       exhausted m = (pleft m < p / 2).  None = the constructor raised or is still looping when the fuel runs out. *)
+Definition exh_of (pleft : Q -> Q) (p : Q) (m : Q) : bool := Qltb (pleft m) (p / 2).
+Definition probstep_ctor (p : Q) (pleft_l pleft_r : Q -> Q) (rootl rootr : Q -> option Q) (fuel : nat) (h : Q) : option (list Q * nat) :=
+  if Qltb 0 p then probstep_axis (exh_of pleft_l p) (exh_of pleft_r p) rootl rootr fuel h else None.
+(* the quadrature of the constant-density oracle as a function: lin_exh_r A h q = exh_of (lin_pleft_r A h) (2 * q) *)
+Definition lin_pleft_r (A h m : Q) : Q := (A - Qminb m A) / (2 * (A - h / 2)).
+Definition lin_pleft_l (A h m : Q) : Q := (A - Qminb (- m) A) / (2 * (A - h / 2)).
